@@ -221,6 +221,81 @@ def graph_problems(a, b, result):
     return bad
 
 
+# ---- several configurations whose sources share a file name (different directories)
+
+
+def gen_same_basename(rng, i=None):
+    i = rng.randrange(6) if i is None else i
+    n = [3, 4, 3, 2, 4, 3][i % 6]
+    fmts = ["glyf_colr_1", "picosvg", "glyf", "glyf_colr_0", "untouchedsvg"]
+    dirs = ["s", "t", "u", "v"][:n]
+    cfgs = []
+    for k, dname in enumerate(dirs):
+        srcs = [f"{dname}/a.svg"] + ([f"{dname}/b.svg"] if rng.random() < 0.4 else [])
+        # (picosvg-based configurations agree on tolerance / em height: finding F8 is not the subject)
+        cfgs.append(_cfg(f"F{k}.ttf", srcs, color_format=rng.choice(fmts), clip_to_viewbox=rng.random() < 0.6))
+    return {"cfgs": cfgs}
+
+
+def run_driver_n(cfgs):
+    repo_src = next((p for p in sys.path if p.endswith("/src") and os.path.isdir(os.path.join(p, "nanoemoji"))), "/repo/src")
+    with tempfile.TemporaryDirectory(prefix="verif_bg_") as d:
+        k = 0
+        for c in cfgs:
+            for fn in c["srcs"]:
+                os.makedirs(os.path.dirname(os.path.join(d, fn)), exist_ok=True)
+                k += 1
+                open(os.path.join(d, fn), "w").write(_SVG.format(h=30 + 7 * k, c="%06X" % (0x0A1B2C * k)))
+        names = []
+        for j, c in enumerate(cfgs):
+            names.append(f"c{j}.toml")
+            open(os.path.join(d, names[-1]), "w").write(_toml(c))
+        env = dict(os.environ, PYTHONPATH=repo_src, PATH="/venv/bin:" + os.environ.get("PATH", ""))
+        r = subprocess.run([sys.executable, "-m", "nanoemoji.nanoemoji", "--noexec_ninja"] + names, cwd=d, env=env, capture_output=True, text=True, timeout=300)
+        out = {"exit": r.returncode, "stderr": r.stderr[-1500:]}
+        bn = os.path.join(d, "build", "build.ninja")
+        if r.returncode == 0 and os.path.exists(bn):
+            out["edges"], out["dups"] = parse_ninja(open(bn).read())
+        return out
+
+
+def own_source_problems(cfgs, result):
+    """every file a configuration's glyph map step reads is derived from one of that
+    configuration's OWN sources (followed back through the intermediate edges), each source
+    is read, and two different sources never share an intermediate"""
+    if result["exit"] != 0:
+        return [("driver failed", result["stderr"][-300:])]
+    edges = result["edges"]
+    bad = []
+    if result["dups"]:
+        bad.append(("unique", "two edges for", sorted(set(result["dups"]))))
+    origin = {}
+    for c in cfgs:
+        name = c["output_file"]
+        fe = edges.get(name)
+        gm = edges.get(fe["vars"].get("glyphmap_file")) if fe else None
+        if gm is None:
+            bad.append((name, "no font / glyph map edge"))
+            continue
+        roots = []
+        for f in gm["inputs"]:
+            cur, hops = f, 0
+            while cur in edges and hops < 6:
+                ins = edges[cur]["inputs"]
+                cur = ins[0] if ins else None
+                hops += 1
+            if cur is None:
+                bad.append((name, f"{f} has no source"))
+                continue
+            root = os.path.normpath(os.path.join("build", cur))
+            roots.append(root)
+            if origin.setdefault(f, root) != root:
+                bad.append((name, f"{f} stands for two sources", origin[f], root))
+        if sorted(roots) != sorted(os.path.normpath(s_) for s_ in c["srcs"]):
+            bad.append((name, "glyph map is built from", sorted(roots), "configuration lists", sorted(c["srcs"])))
+    return bad
+
+
 # ---- the CLI's own bitmap step: bitmap_resolution is the pixel HEIGHT of what it renders
 
 
